@@ -1,4 +1,5 @@
 import Emboss.Model.Fmt
+import Emboss.Spec.Fmt
 import Driver.Util
 open Emboss.Fmt Driver
 
@@ -9,6 +10,9 @@ open Emboss.Fmt Driver
   `T<hex>` a token with the given text (UTF-8, hex).  Answer: `ok <hex of the text>`,
   `none` (the model says the Python raises), or `not-text` (the root handler did not
   return a string).
+* `TABLE` — evaluates the table obligations of Spec/Fmt.lean on the regenerated registry
+  (`tableTyped formatters`, `tableMatchesGrammar formatters grammar`): `ok`, or `bad …`
+  naming the first offending entries.
 * `SANITY <formatted tokens> <original tokens>` — each a `,`-separated list of
   `<hex symbol>:<hex text>` (`-` for the empty list).  Answer: `ok`, `differs <i>`,
   `indexerror <i>`.
@@ -85,8 +89,25 @@ def parseToks (s : String) : Option (List Tok) :=
       pure { sym := a, text := b.toList }
     | _ => none
 
+def showEntry (e : String × List String × String × Bool) : String :=
+  e.1 ++ " -> " ++ " ".intercalate e.2.1 ++ " :: " ++ e.2.2.1
+
+def tableReport : String :=
+  let tbl := Emboss.Generated.FmtTable.formatters
+  let g := Emboss.Generated.FmtTable.grammar
+  if tableTyped tbl && tableMatchesGrammar tbl g then "ok"
+  else
+    let untyped := (tbl.filter (fun e => !checkEntry e)).take 3
+    let undropped := (tbl.filter (fun e => !dropOK e)).take 3
+    let layoutLhs := (tbl.filter (fun e => isLayoutSym e.1)).take 3
+    "bad grammar-match=" ++ toString (tableMatchesGrammar tbl g) ++
+      " untyped=[" ++ "; ".intercalate (untyped.map showEntry) ++ "]" ++
+      " ignored-non-layout=[" ++ "; ".intercalate (undropped.map showEntry) ++ "]" ++
+      " layout-lhs=[" ++ "; ".intercalate (layoutLhs.map showEntry) ++ "]"
+
 def handle (line : String) : String :=
   match line.splitOn " " with
+  | ["TABLE"] => tableReport
   | "FMT" :: iw :: items =>
     match iw.toNat?, parseItems items [] none with
     | some iw, some t =>
